@@ -511,4 +511,81 @@ func TestC11Relative(t *testing.T) {
 	}
 }
 
-func init() { reg("C11.rel", checkC11Rel) }
+// ---- a template that does not exist yet, then does ---------------------------------------------------
+
+type C11LaterCase struct {
+	Opts int  `json:"opts"` // bit0 with, bit1 only, bit2 ignore missing, bit3 sandboxed
+	Rel  bool `json:"rel"`  // the include names the template relative to the includer
+	Reps int  `json:"reps"` // renders while the template is missing
+}
+
+// checkC11Later: `ignore missing` (and the error without it) describe the moment of the render: once
+// a loader has the template, the same include renders it.
+func checkC11Later(c C11LaterCase) error {
+	opts := ""
+	if c.Opts&4 != 0 {
+		opts += " ignore missing"
+	}
+	if c.Opts&1 != 0 {
+		opts += " with {'w': 5}"
+	}
+	if c.Opts&2 != 0 {
+		opts += " only"
+	}
+	if c.Opts&8 != 0 {
+		opts += " sandboxed"
+	}
+	name, written := "sub/late", "'sub/late'"
+	if c.Rel {
+		written = "'./late'"
+	}
+	tm := map[string]string{"sub/main": "A{% include " + written + opts + " %}B"}
+	e := twig.New()
+	e.RegisterLoader(c11MapLoader{tm, nil})
+	e.EnableSandbox(allowAll{})
+	for i := 0; i < c.Reps; i++ {
+		r := render(e, "sub/main", map[string]interface{}{"p": 1})
+		if r.Panic != "" {
+			return fmt.Errorf("panic: %s", r.Panic)
+		}
+		if c.Opts&4 != 0 {
+			if r.Failed() || r.Out != "AB" {
+				return fmt.Errorf("render %d with the template missing: %v, want \"AB\"; includer %s", i+1, r, q(tm["sub/main"]))
+			}
+		} else if r.Err == "" || !errors.Is(r.Error(), twig.ErrTemplateNotFound) {
+			return fmt.Errorf("render %d with the template missing: %v, want an error matching ErrTemplateNotFound; includer %s", i+1, r, q(tm["sub/main"]))
+		}
+	}
+	tm[name] = "(late{{ w }})"
+	want := "A(late)B"
+	if c.Opts&1 != 0 {
+		want = "A(late5)B"
+	}
+	r := render(e, "sub/main", map[string]interface{}{"p": 1})
+	if r.Failed() || r.Out != want {
+		return fmt.Errorf("after %d render(s) without it the loader has %q now: the include renders %v, want %s; includer %s", c.Reps, name, r, q(want), q(tm["sub/main"]))
+	}
+	return nil
+}
+
+func TestC11Later(t *testing.T) {
+	r := NewRec(t, "C11", "exhaustive: an include of a template no loader has, rendered 1 / 2 / 5 times (empty with `ignore missing`, an error without), then the loader gains the template and the same include must render it; all 16 option combinations x {full name, relative name}; all cases non-trivial")
+	defer r.Flush()
+	r.SetExhaustive()
+	for opts := 0; opts < 16; opts++ {
+		for _, rel := range []bool{false, true} {
+			for _, reps := range []int{1, 2, 5} {
+				c := C11LaterCase{Opts: opts, Rel: rel, Reps: reps}
+				r.Case(fmt.Sprint(opts, rel, reps), true, c)
+				if err := checkC11Later(c); err != nil {
+					r.FailEnum(t, "C11.later", c, err)
+				}
+			}
+		}
+	}
+}
+
+func init() {
+	reg("C11.rel", checkC11Rel)
+	reg("C11.later", checkC11Later)
+}
